@@ -18,8 +18,19 @@ def cpu_has_bmi2():
         return False
 
 
+def isa_flags():
+    """Extra instruction-set flags the host supports: code guarded by __SSE4_1__, __AVX2__, __LZCNT__, __BMI2__ ... is only
+    compiled in such builds (no FMA: contraction would change floating-point results)."""
+    try:
+        have = set(open("/proc/cpuinfo").read().split())
+    except Exception:  # noqa
+        return []
+    want = [("sse4_1", "-msse4.1"), ("avx", "-mavx"), ("avx2", "-mavx2"), ("abm", "-mlzcnt"), ("bmi1", "-mbmi"), ("bmi2", "-mbmi2"), ("popcnt", "-mpopcnt")]
+    return [f for k, f in want if k in have]
+
+
 def stack_flags():
-    return core.SAN + (["-mbmi2"] if cpu_has_bmi2() else [])
+    return core.SAN + isa_flags()
 
 
 def descriptor(layers, extra=None):
